@@ -13,6 +13,7 @@ import (
 	"fmt"
 	"os"
 	"sync"
+	"time"
 )
 
 type replayFile struct {
@@ -148,6 +149,11 @@ func Unwind(n int) {}
 
 // Yield is a scheduling point.
 func Yield() {}
+
+// Settle blocks the caller until every other goroutine is blocked or finished (quiescence). Harnesses
+// use it to let a goroutine finish processing an event before the harness-controlled clock advances.
+// Native: a short sleep.
+func Settle() { time.Sleep(20 * time.Millisecond) }
 
 // ExpectPanic runs f and reports whether it panicked.
 func ExpectPanic(f func()) (panicked bool) {
